@@ -14,7 +14,7 @@ def mpi_exe(flavour="asan"):
     return vlib.build_engine("sim_mpi", SRC, flavour=flavour, transport="mpi", extra=["-DSIM_MPI"])
 
 
-def make_cases(prop, tier, seed, n, variants=(0,), fp_levels=(2, 3, 1), layouts=None, gvts=None, ckpts=None, fault_rates=(0, 40, 0, 16), flavours=("asan",),
+def make_cases(prop, tier, seed, n, variants=(0,), fp_levels=(2, 10, 3, 1, 10), layouts=None, gvts=None, ckpts=None, fault_rates=(0, 40, 0, 16), flavours=("asan",),
                model_base=None, same_model_group=1):
     exes = {fl: mpi_exe(fl) for fl in flavours}
     lay = layouts or LAYOUTS
@@ -67,7 +67,7 @@ def run_batches(cases, timeout=240, max_threads=16):
 
     def one(i):
         c = cases[i]
-        w = min(c["ranks"] * c["threads"], max_threads)
+        w = min(c["ranks"] * (1 if c["fp"] >= 10 else c["threads"]), max_threads)   # baton: one running thread per rank
         with cond:
             while avail[0] < w:
                 cond.wait()
